@@ -1,5 +1,5 @@
 SPECIFICATION Spec
-CONSTANT Inputs <- StrictInputs
+CONSTANT InputSeq <- SeqFromFile
 CONSTANT Hosts <- HostsFull
 INVARIANT DetManifest
 INVARIANT DetNotes
